@@ -6,9 +6,10 @@
 extern int g_fail;            /* store attempts into a non-NULL slot (a callee invoked with a NULL slot reports nothing) */
 extern int g_nerr;            /* errors actually stored into a caller-provided slot */
 extern xrl_error g_err_obj;   /* the stored error object (one is enough: a second store is an assertion failure) */
+extern xrl_error **g_watch;   /* the slot the harness passed to the function under proof (NULL: none) */
 static inline void stub_set(xrl_error **err, xrl_error_code code) {
   if (err) {
-    g_fail++;
+    if (err == g_watch) g_fail++;   /* only stores into the caller's slot are "errors reported by the call" */
     __CPROVER_assert(*err == NULL, "no error is stored over an existing one");
     if (*err == NULL) { g_err_obj.code = code; g_err_obj.message = "stub"; *err = &g_err_obj; g_nerr++; }
   }
@@ -25,11 +26,15 @@ static inline void stub_fail(xrl_error **err) {
 #define V_STUB_RESTRICT(v)
 #endif
 #define GHOST_RESET() do { g_fail = 0; g_nerr = 0; } while (0)
+#define ND_ERRSLOT(error) xrl_error *error##_obj = NULL; ND_BOOL(error##_present); xrl_error **error = error##_present ? &error##_obj : NULL; g_watch = error
+#define ERRSLOT_DONE(error)
 #define NO_ERROR(error) (ERR_NONE(error) && g_fail == 0)
 #define ONE_ERROR(error) ((error) == NULL ? g_fail == 0 : (g_fail == 1 && *(error) != NULL))
 #else
 /* native: "exactly one error" is observed through the caller's slot */
 #define GHOST_RESET()
+#define ND_ERRSLOT(error) xrl_error *error##_obj = NULL; ND_BOOL(error##_present); xrl_error **error = error##_present ? &error##_obj : NULL
+#define ERRSLOT_DONE(error) xrl_clear_error(&error##_obj)
 #define NO_ERROR(error) ERR_NONE(error)
 #define ONE_ERROR(error) ((error) == NULL || *(error) != NULL)
 #endif
